@@ -40,7 +40,7 @@ class ResourceProtector(_ResourceProtector):
 
     def acquire_credential(self, request):
         if request.method in ["POST", "PUT"]:
-            body = request.POST.dict()
+            body = [(k, v) for k, values in request.POST.lists() for v in values]
         else:
             body = None
 
